@@ -1,13 +1,513 @@
-//! C18 — not yet implemented
-use crate::core::{Ctx, Outcome};
-use serde_json::Value;
+//! C18 — Reported drawdowns are the peak-to-trough declines of the value curve.
+//!
+//! E-SEQ: every timed value sequence of length <= d over values {-1,0,1,2,3,4} x gaps {1 ms, 1 s}
+//! whose first value is positive (=> every running maximum is positive, as the statement requires;
+//! later values may be zero or negative like a PnL curve) is fed point by point to the REAL
+//!   (a) `DrawdownGenerator` (started with `default()` and, separately, with `init(first point)`), its
+//!       returned drawdowns being fed to the real `MaxDrawdownGenerator` / `MeanDrawdownGenerator`;
+//!   (b) `AssetState::update_from_balance` -> `TearSheetAssetGenerator` (equity curve = balance total);
+//!   (c) `TearSheetGenerator::update_from_position` (curve = cumulative realised PnL);
+//! and after EVERY point the observations are compared with an independent, declarative decomposition
+//! of the curve (record highs -> episodes), written from the statement:
+//!
+//!  R1 "each completed drawdown reported is the largest relative decline from one running maximum
+//!      before the next point that exceeds it, starting at that maximum's time and ending at the
+//!      recovery time": `update` returns Some exactly at a point that exceeds the running maximum when
+//!      some earlier point of that episode lay below the maximum; value == (peak-min)/peak (1e-24),
+//!      time_start == time the running maximum was set, time_end == time of the exceeding point.
+//!      Reporting at a point that does not exceed the maximum (e.g. a recovery exactly *to* the peak),
+//!      reporting a zero decline, or not reporting a completed decline are violations.
+//!  R2 "while a decline from the latest maximum is in progress it is reported as the current
+//!      drawdown": `generate()` is Some((peak-min)/peak, start = peak time) iff some point since the
+//!      latest maximum lay below it (the end time of an unfinished drawdown is not specified by the
+//!      statement and is not checked).
+//!  R3 "The maximum drawdown is the largest of the drawdowns reported": the max generator holds one of
+//!      the reported drawdowns whose depth is maximal (any one on ties), None iff nothing was reported.
+//!  R4 "the mean drawdown is their average in depth and duration": depth mean within 1e-20; duration
+//!      mean (an integer number of ms) within k ms for k reported drawdowns.
+//!  R3/R4 are evaluated against the drawdowns that were ACTUALLY reported (the statement's words), R1/R2
+//!  against the decomposition. For the two tear sheets a single `generate` is made on a clone after
+//!  every point; their current drawdown must be the curve's current drawdown (as observed on the raw
+//!  generator, which R2 ties to the decomposition) and "the drawdowns reported" are the completed ones
+//!  plus the current one the sheet shows. This layering keeps a defect of the generator itself under
+//!  "C18/generator/..." only; "C18/asset-tear-sheet/..." and "C18/pnl-tear-sheet/..." then point at the
+//!  wiring of the sheets (wrong value fed, current drawdown not folded into max/mean, ...).
 
-pub fn run(_ctx: &Ctx) -> Outcome {
-    eprintln!("MACHINERY: C18 not implemented");
-    std::process::exit(2)
+use super::common::*;
+use crate::core::{Ctx, Outcome, hash_of};
+use crate::explore::seq::{self, SeqModel, Viol};
+use barter::{
+    Timed,
+    engine::state::{asset::AssetState, position::PositionExited},
+    statistic::{
+        metric::drawdown::{
+            Drawdown, DrawdownGenerator,
+            max::{MaxDrawdown, MaxDrawdownGenerator},
+            mean::{MeanDrawdown, MeanDrawdownGenerator},
+        },
+        summary::{asset::TearSheetAssetGenerator, instrument::TearSheetGenerator},
+        time::Daily,
+    },
+};
+use barter_execution::{
+    balance::{AssetBalance, Balance},
+    trade::AssetFees,
+};
+use barter_instrument::{
+    Side,
+    asset::{Asset, AssetIndex, QuoteAsset},
+    instrument::InstrumentIndex,
+};
+use barter_integration::snapshot::Snapshot;
+use chrono::{DateTime, Utc};
+use rust_decimal::Decimal;
+use serde::{Deserialize, Serialize};
+use serde_json::{Value, json};
+
+const VALUES: [i64; 6] = [1, 2, 3, 4, 0, -1];
+const GAPS_MS: [i64; 2] = [1, 1000];
+/// pass 2 ("deep"): one more level, a single gap, longer curves
+const DEEP_VALUES: [i64; 7] = [1, 2, 3, 4, 5, 0, -1];
+
+/// One point of the curve: value and time gap (ms) since the previous point.
+#[derive(Debug, Clone, Copy, PartialEq, Eq, Hash, Serialize, Deserialize)]
+pub struct P {
+    pub v: i64,
+    pub gap_ms: i64,
 }
 
-pub fn replay(_ctx: &Ctx, _case: &Value) {
-    eprintln!("MACHINERY: C18 not implemented");
-    std::process::exit(2)
+#[derive(Clone)]
+pub struct St {
+    t_ms: i64,
+    last_v: i64,
+    /// an R1/R2 violation of the raw generator was already reported on this path: the generator's state
+    /// has diverged from the curve, so R1/R2 are not re-evaluated further down this path (every path is
+    /// explored, so the first manifestation is always reported; later ones would only be echoes).
+    /// R3/R4 and the tear-sheet checks are relative to what was actually reported and stay on.
+    diverged: bool,
+    dd: DrawdownGenerator,
+    dd_init: Option<DrawdownGenerator>,
+    max: MaxDrawdownGenerator,
+    mean: MeanDrawdownGenerator,
+    /// every drawdown the raw generator's `update` has returned so far ("the drawdowns reported")
+    emitted: Vec<Drawdown>,
+    asset: AssetState,
+    ts: TearSheetGenerator,
+}
+
+/// Expected drawdown: depth = num/den exactly (den = the positive peak), with its times.
+#[derive(Debug, Clone, PartialEq)]
+struct Exp {
+    num: i64,
+    den: i64,
+    start: DateTime<Utc>,
+    end: DateTime<Utc>,
+}
+impl Exp {
+    fn depth(&self) -> Decimal {
+        Decimal::from(self.num) / Decimal::from(self.den)
+    }
+    fn ms(&self) -> i64 {
+        (self.end - self.start).num_milliseconds()
+    }
+}
+
+/// Declarative decomposition of a curve (statement R1/R2): record highs split the curve into episodes.
+/// Returns (completed drawdowns with the index of the point that completed them, in-progress one).
+fn decompose(pts: &[(i64, DateTime<Utc>)]) -> (Vec<(usize, Exp)>, Option<Exp>) {
+    // indices of running maxima: points strictly above everything before them
+    let records: Vec<usize> =
+        (0..pts.len()).filter(|&i| pts[..i].iter().all(|(v, _)| *v < pts[i].0)).collect();
+    let mut completed = Vec::new();
+    let mut current = None;
+    for (k, &r) in records.iter().enumerate() {
+        let peak = pts[r].0;
+        let end = records.get(k + 1).copied();
+        let inside = &pts[r + 1..end.unwrap_or(pts.len())];
+        let min = inside.iter().map(|(v, _)| *v).min();
+        let Some(min) = min else { continue };
+        if min >= peak {
+            continue; // no point below the maximum: no decline
+        }
+        match end {
+            Some(e) => completed.push((e, Exp { num: peak - min, den: peak, start: pts[r].1, end: pts[e].1 })),
+            None => current = Some(Exp { num: peak - min, den: peak, start: pts[r].1, end: pts[pts.len() - 1].1 }),
+        }
+    }
+    (completed, current)
+}
+
+fn close(a: Decimal, b: Decimal, tol: Decimal) -> bool {
+    (a - b).abs() <= tol
+}
+fn tol24() -> Decimal {
+    Decimal::new(1, 24)
+}
+fn tol20() -> Decimal {
+    Decimal::new(1, 20)
+}
+
+/// R1 for one `update` return value.
+fn check_emission(
+    tag: &str,
+    got: &Option<Drawdown>,
+    want: Option<&Exp>,
+    exceeds_peak: bool,
+    out: &mut Vec<Viol>,
+    ctxt: &dyn Fn() -> String,
+) {
+    match (got, want) {
+        (None, None) => {}
+        (None, Some(w)) => out.push((
+            format!("C18/{tag}/completed/not-reported"),
+            format!("update returned None at the recovery point, expected {w:?}; {}", ctxt()),
+        )),
+        (Some(g), None) => {
+            let why = if !exceeds_peak {
+                "reported-at-point-not-exceeding-the-maximum"
+            } else {
+                "zero-decline-reported"
+            };
+            out.push((format!("C18/{tag}/completed/{why}"), format!("update returned {g:?}, expected None; {}", ctxt())));
+        }
+        (Some(g), Some(w)) => {
+            if !close(g.value, w.depth(), tol24()) {
+                out.push((
+                    format!("C18/{tag}/completed/depth"),
+                    format!("depth {} expected {}/{}; {}", g.value, w.num, w.den, ctxt()),
+                ));
+            }
+            if g.time_start != w.start {
+                out.push((
+                    format!("C18/{tag}/completed/time-start"),
+                    format!("time_start {} expected {} (time of the running maximum); {}", g.time_start, w.start, ctxt()),
+                ));
+            }
+            if g.time_end != w.end {
+                out.push((
+                    format!("C18/{tag}/completed/time-end"),
+                    format!("time_end {} expected {} (time of the exceeding point); {}", g.time_end, w.end, ctxt()),
+                ));
+            }
+        }
+    }
+}
+
+/// R2 for one `generate()` value.
+fn check_current(tag: &str, got: &Option<Drawdown>, want: Option<&Exp>, out: &mut Vec<Viol>, ctxt: &dyn Fn() -> String) {
+    match (got, want) {
+        (None, None) => {}
+        (None, Some(w)) => out.push((
+            format!("C18/{tag}/current/not-reported"),
+            format!("no current drawdown, expected {w:?}; {}", ctxt()),
+        )),
+        (Some(g), None) => out.push((
+            format!("C18/{tag}/current/reported-without-decline"),
+            format!("current drawdown {g:?} but no point since the latest maximum lies below it; {}", ctxt()),
+        )),
+        (Some(g), Some(w)) => {
+            if !close(g.value, w.depth(), tol24()) {
+                out.push((
+                    format!("C18/{tag}/current/depth"),
+                    format!("depth {} expected {}/{}; {}", g.value, w.num, w.den, ctxt()),
+                ));
+            }
+            if g.time_start != w.start {
+                out.push((
+                    format!("C18/{tag}/current/time-start"),
+                    format!("time_start {} expected {}; {}", g.time_start, w.start, ctxt()),
+                ));
+            }
+        }
+    }
+}
+
+/// R3 + R4 against the set of drawdowns that were actually reported.
+fn check_max_mean(
+    tag: &str,
+    reported: &[Drawdown],
+    got_max: &Option<MaxDrawdown>,
+    got_mean: &Option<MeanDrawdown>,
+    out: &mut Vec<Viol>,
+    ctxt: &dyn Fn() -> String,
+) {
+    if reported.is_empty() {
+        if let Some(m) = got_max {
+            out.push((format!("C18/{tag}/max/present-without-drawdowns"), format!("max={m:?}; {}", ctxt())));
+        }
+        if let Some(m) = got_mean {
+            out.push((format!("C18/{tag}/mean/present-without-drawdowns"), format!("mean={m:?}; {}", ctxt())));
+        }
+        return;
+    }
+    let best = reported.iter().map(|r| r.value).max().unwrap();
+    match got_max {
+        None => out.push((format!("C18/{tag}/max/missing"), format!("no max drawdown, reported={reported:?}; {}", ctxt()))),
+        Some(MaxDrawdown(g)) => {
+            if !close(g.value, best, tol24()) {
+                out.push((
+                    format!("C18/{tag}/max/not-the-largest"),
+                    format!("max depth {} but the largest reported is {best}; reported={reported:?}; {}", g.value, ctxt()),
+                ));
+            } else if !reported.iter().any(|r| close(r.value, g.value, tol24()) && r.time_start == g.time_start && r.time_end == g.time_end) {
+                // any of the deepest ones is accepted on ties, but it must be one of them
+                out.push((
+                    format!("C18/{tag}/max/not-a-reported-drawdown"),
+                    format!("max {g:?} has the largest depth but is none of the reported drawdowns {reported:?}; {}", ctxt()),
+                ));
+            }
+        }
+    }
+    let k = reported.len() as i64;
+    let depth_mean = reported.iter().map(|r| r.value).sum::<Decimal>() / Decimal::from(k);
+    let ms_sum: i64 = reported.iter().map(|r| r.duration().num_milliseconds()).sum();
+    match got_mean {
+        None => out.push((format!("C18/{tag}/mean/missing"), format!("no mean drawdown, reported={reported:?}; {}", ctxt()))),
+        Some(g) => {
+            if !close(g.mean_drawdown, depth_mean, tol20()) {
+                out.push((
+                    format!("C18/{tag}/mean/depth"),
+                    format!("mean depth {} expected {depth_mean}; reported={reported:?}; {}", g.mean_drawdown, ctxt()),
+                ));
+            }
+            // |got - sum/k| <= k ms  <=>  |got*k - sum| <= k*k
+            if (g.mean_drawdown_ms * k - ms_sum).abs() > k * k {
+                out.push((
+                    format!("C18/{tag}/mean/duration"),
+                    format!("mean duration {} ms expected {}/{k} ms (+-{k}); reported={reported:?}; {}", g.mean_drawdown_ms, ms_sum, ctxt()),
+                ));
+            }
+        }
+    }
+}
+
+/// A tear sheet is fed the same curve as the raw generator: its current drawdown must be the raw
+/// generator's, and its max/mean must be those of (drawdowns the raw generator completed) + (the
+/// current one the sheet itself reports). Checking against the raw generator's *observations* keeps
+/// a defect of the generator itself out of the tear-sheet signatures (it is reported once, under
+/// "generator/..."), so these signatures point at the wiring of the tear sheet.
+fn check_sheet(
+    tag: &str,
+    emitted: &[Drawdown],
+    gen_current: &Option<Drawdown>,
+    sheet_current: &Option<Drawdown>,
+    sheet_max: &Option<MaxDrawdown>,
+    sheet_mean: &Option<MeanDrawdown>,
+    out: &mut Vec<Viol>,
+    ctxt: &dyn Fn() -> String,
+) {
+    let same = match (gen_current, sheet_current) {
+        (None, None) => true,
+        (Some(a), Some(b)) => close(a.value, b.value, tol24()) && a.time_start == b.time_start,
+        _ => false,
+    };
+    if !same {
+        out.push((
+            format!("C18/{tag}/current/not-the-curve's-current-drawdown"),
+            format!("sheet reports {sheet_current:?}, the curve's current drawdown is {gen_current:?}; {}", ctxt()),
+        ));
+    }
+    let mut reported = emitted.to_vec();
+    reported.extend(sheet_current.iter().cloned());
+    check_max_mean(tag, &reported, sheet_max, sheet_mean, out, ctxt);
+}
+
+pub struct M {
+    values: Vec<i64>,
+    gaps: Vec<i64>,
+}
+
+fn points(hist: &[P], last: Option<&P>) -> Vec<(i64, DateTime<Utc>)> {
+    let mut t = 0i64;
+    hist.iter()
+        .chain(last)
+        .map(|p| {
+            t += p.gap_ms;
+            (p.v, t_plus_ms(t))
+        })
+        .collect()
+}
+
+fn position(pnl: i64, t: DateTime<Utc>) -> PositionExited<QuoteAsset, InstrumentIndex> {
+    PositionExited {
+        instrument: InstrumentIndex(0),
+        side: Side::Buy,
+        price_entry_average: Decimal::from(100),
+        quantity_abs_max: Decimal::ONE,
+        pnl_realised: Decimal::from(pnl),
+        fees_enter: AssetFees::quote_fees(Decimal::ZERO),
+        fees_exit: AssetFees::quote_fees(Decimal::ZERO),
+        time_enter: t,
+        time_exit: t,
+        trades: vec![],
+    }
+}
+
+impl SeqModel for M {
+    type State = St;
+    type Sym = P;
+
+    fn init(&self) -> St {
+        St {
+            t_ms: 0,
+            last_v: 0,
+            diverged: false,
+            dd: DrawdownGenerator::default(),
+            dd_init: None,
+            max: MaxDrawdownGenerator::default(),
+            mean: MeanDrawdownGenerator::default(),
+            emitted: Vec::new(),
+            asset: AssetState::new(Asset::new("usdt", "USDT"), TearSheetAssetGenerator::default(), None),
+            ts: TearSheetGenerator::init(t0()),
+        }
+    }
+
+    fn alphabet(&self, _s: &St, hist: &[P]) -> Vec<P> {
+        let mut v = Vec::new();
+        for &x in &self.values {
+            // the statement quantifies over curves with positive running maxima: first value > 0
+            if hist.is_empty() && x <= 0 {
+                continue;
+            }
+            for &g in &self.gaps {
+                v.push(P { v: x, gap_ms: g });
+            }
+        }
+        v
+    }
+
+    fn step(&self, s: &mut St, p: &P, hist: &[P], out: &mut Vec<Viol>) {
+        let pts = points(hist, Some(p));
+        let i = pts.len() - 1;
+        let (t, val) = (pts[i].1, Decimal::from(p.v));
+        let exceeds_peak = i > 0 && pts[..i].iter().all(|(v, _)| *v < p.v);
+        let ctxt = || format!("curve={:?}", pts.iter().map(|(v, t)| (*v, (*t - t0()).num_milliseconds())).collect::<Vec<_>>());
+
+        // ---- reference decomposition of the whole curve so far
+        let (completed, current) = decompose(&pts);
+        let want_now: Option<&Exp> = completed.iter().find(|(at, _)| *at == i).map(|(_, e)| e);
+
+        // ---- (a) raw generators, real code
+        let got = s.dd.update(Timed::new(val, t));
+        let before = out.len();
+        if !s.diverged {
+            check_emission("generator", &got, want_now, exceeds_peak, out, &ctxt);
+        }
+        if let Some(d) = &got {
+            s.mean.update(d);
+            s.max.update(d);
+            s.emitted.push(d.clone());
+        }
+        let gen_current = s.dd.clone().generate();
+        if !s.diverged && out.len() == before {
+            check_current("generator", &gen_current, current.as_ref(), out, &ctxt);
+        }
+        s.diverged |= out.len() > before;
+        // R3/R4: max / mean of the drawdowns `update` has actually reported so far
+        check_max_mean("generator", &s.emitted, &s.max.generate(), &s.mean.generate(), out, &ctxt);
+
+        // same generator started through `init(first point)`: must behave like the default start
+        match &mut s.dd_init {
+            None => s.dd_init = Some(DrawdownGenerator::init(Timed::new(val, t))),
+            Some(g) => {
+                let got2 = g.update(Timed::new(val, t));
+                let cur2 = g.clone().generate();
+                if got2 != got || cur2 != gen_current {
+                    out.push((
+                        "C18/generator-init/differs-from-default-start".into(),
+                        format!("init-started generator: update={got2:?} current={cur2:?}; default-started: update={got:?} current={gen_current:?}; {}", ctxt()),
+                    ));
+                }
+            }
+        }
+
+        // ---- (b) asset tear sheet through the real producer AssetState::update_from_balance
+        s.asset.update_from_balance(Snapshot(&AssetBalance {
+            asset: AssetIndex(0),
+            balance: Balance::new(val, val),
+            time_exchange: t,
+        }));
+        let sheet = s.asset.statistics.clone().generate();
+        check_sheet("asset-tear-sheet", &s.emitted, &gen_current, &sheet.drawdown, &sheet.drawdown_max, &sheet.drawdown_mean, out, &ctxt);
+        if sheet.balance_end != Some(Balance::new(val, val)) {
+            out.push(("C18/asset-tear-sheet/balance-end".into(), format!("balance_end={:?}; {}", sheet.balance_end, ctxt())));
+        }
+
+        // ---- (c) instrument tear sheet: curve = cumulative realised PnL of closed positions
+        s.ts.update_from_position(&position(p.v - s.last_v, t));
+        let sheet = s.ts.clone().generate(Decimal::ZERO, Daily);
+        check_sheet("pnl-tear-sheet", &s.emitted, &gen_current, &sheet.pnl_drawdown, &sheet.pnl_drawdown_max, &sheet.pnl_drawdown_mean, out, &ctxt);
+
+        s.t_ms += p.gap_ms;
+        s.last_v = p.v;
+    }
+
+    fn final_hash(&self, s: &St) -> u64 {
+        hash_of(&(
+            (s.dd.peak, s.dd.drawdown_max, s.dd.time_peak, s.dd.time_now),
+            s.mean.count,
+            s.mean.mean_drawdown.as_ref().map(|m| (m.mean_drawdown, m.mean_drawdown_ms)),
+            s.max.max.as_ref().map(|m| (m.0.value, m.0.time_start, m.0.time_end)),
+            (s.ts.pnl_drawdown.peak, s.ts.pnl_drawdown.drawdown_max, s.ts.pnl_drawdown_mean.count),
+            (s.asset.statistics.drawdown.peak, s.asset.statistics.drawdown_mean.count),
+        ))
+    }
+}
+
+pub fn run(ctx: &Ctx) -> Outcome {
+    // pass 1: both gaps (durations vary); pass 2: one more value level, single gap, deeper
+    let max_len = ctx.tier.pick(5, 7);
+    let m = M { values: VALUES.to_vec(), gaps: GAPS_MS.to_vec() };
+    let st1 = seq::run(ctx, &m, "curve", max_len);
+    let deep_len = ctx.tier.pick(7, 9);
+    let m2 = M { values: DEEP_VALUES.to_vec(), gaps: vec![1000] };
+    let st2 = seq::run(ctx, &m2, "deep", deep_len);
+    let st = seq::SeqStats {
+        sequences: st1.sequences + st2.sequences,
+        steps: st1.steps + st2.steps,
+        distinct_final: st1.distinct_final + st2.distinct_final,
+        ..Default::default()
+    };
+    Outcome {
+        level: "exploration",
+        coverage: json!({
+            "evaluations": st.steps,
+            "sequences": st.sequences,
+            "distinct_nontrivial": st.distinct_final,
+            "exhaustive": true,
+            "max_len": max_len,
+            "deep_max_len": deep_len,
+            "deep_values": DEEP_VALUES,
+            "per_pass": [
+                {"pass": "curve", "sequences": st1.sequences, "evaluations": st1.steps, "distinct_final": st1.distinct_final},
+                {"pass": "deep", "sequences": st2.sequences, "evaluations": st2.steps, "distinct_final": st2.distinct_final},
+            ],
+            "values": VALUES,
+            "gaps_ms": GAPS_MS,
+            "rule": "every timed curve of <= max_len points (first value > 0) fed to the real DrawdownGenerator (default and init start) + Max/Mean generators, AssetState::update_from_balance -> TearSheetAssetGenerator and TearSheetGenerator::update_from_position; after every point: update()'s return, generate(), max, mean and both tear sheets compared with the record-high decomposition of the curve",
+            "samples": [
+                {"seq": [{"v":2,"gap_ms":1},{"v":1,"gap_ms":1000},{"v":2,"gap_ms":1},{"v":3,"gap_ms":1000}], "note": "recovery exactly to the peak does not end the drawdown; it ends at 3"},
+                {"seq": [{"v":1,"gap_ms":1},{"v":2,"gap_ms":1},{"v":3,"gap_ms":1}], "note": "monotone: nothing reported"},
+                {"seq": [{"v":3,"gap_ms":1},{"v":-1,"gap_ms":1000},{"v":4,"gap_ms":1}], "note": "PnL-like curve below zero: depth 4/3"},
+            ],
+        }),
+        assumptions: vec![
+            "curves have a positive first value (hence positive running maxima) and strictly increasing times; later values may be <= 0".into(),
+            "the end time of an unfinished (current) drawdown is not specified by the statement and is not checked".into(),
+            "a point equal to the running maximum does not set a new maximum ('the next point that exceeds it')".into(),
+            "mean duration is an integer number of ms: tolerance k ms for k drawdowns; depth tolerance 1e-24 (mean 1e-20)".into(),
+            "tear sheets are generated once, on a clone, after each point (generating twice on the same generator is outside the statement)".into(),
+        ],
+    }
+}
+
+pub fn replay(ctx: &Ctx, case: &Value) {
+    let m = if case["label"].as_str() == Some("deep") {
+        M { values: DEEP_VALUES.to_vec(), gaps: vec![1000] }
+    } else {
+        M { values: VALUES.to_vec(), gaps: GAPS_MS.to_vec() }
+    };
+    for (sig, detail) in seq::replay(&m, case) {
+        ctx.violate(sig, detail, case.clone());
+    }
 }
